@@ -250,6 +250,24 @@ def stubs_conformance(rnd, rounds=150):
         n += 1
         if real != got:
             return n, f"KD stub {got} vs scipy {real}"
+    # what the regionprops stub abstracts: a value depends only on the label's own pixels and the spacing
+    # (masked frame vs whole frame), area = pixel count x voxel size, centroid = mean coordinate x spacing
+    from funtracks.annotators._regionprops_extended import regionprops_extended
+
+    for _ in range(60):
+        shape = rnd.choice([(4, 5), (3, 4, 4)])
+        fr = np.array([rnd.choice([0, 0, 1, 2, 3]) for _ in range(int(np.prod(shape)))], dtype=np.int64).reshape(shape)
+        sp = tuple(rnd.choice([1.0, 0.5, 2.0, 3.0]) for _ in shape)
+        whole = {r.label: r for r in regionprops_extended(fr, spacing=sp)}
+        for lab, r in whole.items():
+            alone = regionprops_extended(np.where(fr == lab, lab, 0), spacing=sp)[0]
+            coords = np.argwhere(fr == lab)
+            n += 1
+            if not np.isclose(r.area, len(coords) * np.prod(sp)) or not np.allclose(
+                    r.centroid, coords.mean(axis=0) * np.array(sp)):
+                return n, f"regionprops area/centroid differ from count x voxel / scaled mean on {fr.tolist()} {sp}"
+            if not np.isclose(r.area, alone.area) or not np.allclose(r.centroid, alone.centroid):
+                return n, "regionprops of a label depend on other labels in the frame"
     # difflib oracle axioms on real strings
     words = ["time", "Time", "t", "area", "Area", "x", "y", "pos", "seg_id", "segid", "Tracklet ID", "track_id", "iou"]
     for w in words:
